@@ -42,15 +42,17 @@ Section Sound.
     { destruct (cache_get w (key_of ow p)); intros H; injection H as _ <- _; reflexivity. }
     rewrite cur_lookup.
     assert (Hbase : forall rd refs, do_apply between w (key_of ow p) rd (applied_for (pc_cfg c) ow p refs) = (w', evs, r) ->
-              (match rd with Some r0 => is_controller s (ow_id ow) r0 = true | None => True end) ->
+              (match rd with Some r0 => is_controller s (ow_id ow) r0 = true | None => quiet = true -> api_get w (key_of ow p) = None end) ->
               forallb (C02Corr.ev_okb c) evs = true).
     { intros rd refs H Hrd. destruct (do_apply_events _ _ _ _ _ _ _ _ H) as (post & -> & Hp). cbn [forallb]. rewrite andb_true_r.
       unfold C02Corr.ev_okb. destruct post as [x| |]; [|reflexivity|reflexivity].
       destruct Hp as [-> _]. destruct (apply_result_ok _ _ _ _ _ _ _ _ _ H) as (Hv & Hrev & Ha).
       fold s. fold ow. rewrite Hv, (one_controller x Hv Ha), Hrev, revann_eqb_refl. cbn [andb].
-      destruct rd as [r0|]; [|reflexivity]. now rewrite Hrd. }
+      destruct rd as [r0|]; [now rewrite Hrd|].
+      rewrite Hnil. destruct quiet; [|reflexivity]. cbn [negb orb].
+      rewrite (Hquiet eq_refl). unfold idw. now rewrite (Hrd eq_refl). }
     destruct (lookup (key_of ow p) (w_store w)) as [cu|] eqn:El.
-    2:{ intros H. apply (Hbase None _ H I). }
+    2:{ intros H. apply (Hbase None _ H). intros _. exact El. }
     destruct (check_adoption s (pc_force c) ow cu (pc_prev c) (po_cp p)) eqn:Ec; try (intros H; injection H as _ <- _; reflexivity).
     - intros H. apply (Hbase (Some cu) _ H). now apply check_already_iff in Ec.
     - (* adoption *)
